@@ -3,7 +3,7 @@
 //! operation any of these tests performs is recorded there (vh::apitrace) for validation by ArenaMonitor.tla.
 #![allow(warnings)]
 
-#[path = "../../../repo/tests/all/main.rs"]
+#[path = "/repo/tests/all/main.rs"]
 mod all;
 
 #[used]
